@@ -458,7 +458,9 @@ def parse_kani_log(txt):
         # concrete playback text (if requested)
         pm = re.search(r'Concrete playback unit test for `[^`]*`:\n```\n(.*?)```', body, re.S)
         if pm:
-            r['playback'] = pm.group(1)
+            t = pm.group(1)
+            # drop Kani's doc-comment header: a multi-line assertion text breaks the `///` comment
+            r['playback'] = t[t.index('#[test]'):] if '#[test]' in t else t
         r['functions'] = sorted(set(re.findall(r'in function ([\w:<>&, ]+)', body)))
         res[name] = r
     return res
@@ -673,8 +675,15 @@ def native_replay(prop, job, hname, test_src, root, profile_release=False):
         env_cmd = cmd
         rc, secs, to = run_cmd(env_cmd, dest, 900, 16, logp)
         txt = read(logp)
+        os.makedirs(os.path.join(VERIF, 'evidence', 'logs'), exist_ok=True)
+        write(os.path.join(VERIF, 'evidence', 'logs', '%s-%s.replay-%s.log' % (prop, hname, 'rel' if profile_release else 'dev')), txt[-20000:])
         ran = re.search(r'test result: (\w+)\. (\d+) passed; (\d+) failed', txt)
         if not ran:
+            # a panic in a panic=abort build kills the test process: libtest prints no result line
+            started = re.search(r'running 1 test', txt)
+            crashed = re.search(r'test exited abnormally|panicked at|signal: 6|SIGABRT|process didn.t exit successfully', txt)
+            if started and crashed and rc != 0:
+                return True, txt[-1200:]
             return None, txt[-1200:]
         failed = int(ran.group(3)) > 0
         passed = int(ran.group(2)) > 0
@@ -744,6 +753,11 @@ def cmd_check(prop, tier, only, keep, seed):
                 rep_dev, tail_dev = native_replay(prop, job, hname, test_src, root, False)
                 rep_rel, tail_rel = native_replay(prop, job, hname, test_src, root, True)
                 ph['replay'] = {'dev_reproduces': rep_dev, 'release_reproduces': rep_rel}
+                if rep_dev is None and rep_rel is None:
+                    write(os.path.join(VERIF, 'evidence', 'logs', '%s-%s.nonrepro.rs' % (prop, hname)), test_src)
+                    inconclusive.append('%s: solver says FAILED (%s) but the native replay could not be built or run (see evidence/logs)'
+                                        % (hname, failed[0]['desc']))
+                    continue
                 if rep_dev or rep_rel:
                     path = write_replay_file(prop, job, hname, test_src, failed, tier)
                     ph['replay']['file'] = path
@@ -755,6 +769,7 @@ def cmd_check(prop, tier, only, keep, seed):
                         violations.append((hname, failed, path))
                 else:
                     ph['replay']['log_tail'] = (tail_dev or '')[-600:]
+                    write(os.path.join(VERIF, 'evidence', 'logs', '%s-%s.nonrepro.rs' % (prop, hname)), test_src)
                     inconclusive.append('%s: counterexample does not reproduce natively (artefact of the container model or a stub): %s'
                                         % (hname, failed[0]['desc']))
 
